@@ -58,4 +58,7 @@ structure Program where
   lines : List Line
   deriving DecidableEq, Repr, Inhabited
 
+/-- Case-insensitive comparison key of label names (`to_lowercase`; names are ASCII). -/
+def lower (s : String) : String := s.toLower
+
 end Emu2a.Asm
